@@ -9,7 +9,7 @@
        the harness compares with the implementation on enumerated schedules. *)
 From Coq Require Import List ZArith Bool.
 From Krrood Require Import Eql.DomainCacheSpec Eql.DomainCache Eql.DomainCacheProofs
-                           Eql.ReevalSpec Eql.Reeval Eql.ReevalProofs.
+                           Eql.ReevalSpec Eql.Reeval Eql.ReevalProofs Eql.ReevalExists.
 Import ListNotations.
 Open Scope Z_scope.
 
@@ -23,6 +23,20 @@ Theorem C03_cache_sequential : forall (domain : list hv), NoDup domain ->
   nth_error (hs S') h = Some (st, tr) ->
   st <> HFailed /\ (st = HDone -> tr = iter_spec domain) /\ is_prefix tr (iter_spec domain).
 Proof. exact cache_sequential. Qed.
+
+(* (a) the EMPTY domain explicitly (a variable without any value of its type, also after let's isinstance filter): every
+   handle of every sequential schedule -- the second, third, ... included -- yields nothing and none dies *)
+Theorem C03_cache_sequential_empty : forall (ops : list op) (S' : sys) (h : nat) (st : hstate) (tr : list hv),
+  seq_run ops (init []) = Some S' -> nth_error (hs S') h = Some (st, tr) -> st <> HFailed /\ tr = [].
+Proof. exact cache_sequential_empty. Qed.
+
+(* (a) a WARM cache (source exhausted, everything cached -- the state after one complete evaluation): every schedule
+   whatsoever, any number of live handles: the cache cannot make evaluations interfere any more *)
+Theorem C03_cache_warm_any_schedule : forall (domain : list hv), NoDup domain ->
+  forall (ops : list op) (h : nat) (st : hstate) (tr : list hv),
+  nth_error (hs (DomainCache.run ops {| dom := warm domain; hs := [] |})) h = Some (st, tr) ->
+  st <> HFailed /\ (st = HDone -> tr = iter_spec domain) /\ is_prefix tr (iter_spec domain).
+Proof. exact cache_warm_any_schedule. Qed.
 
 (* [seq_run] is the unrestricted machine [run] plus the side condition, nothing else *)
 Theorem C03_seq_run_is_run : forall ops S S', seq_run ops S = Some S' -> S' = DomainCache.run ops S.
@@ -87,6 +101,18 @@ Theorem C03_refuted_dup_reeval :
   hist [(10, 5)] (cold [[10; 10]]) [q_plain_w; q_plain_w] = [[[10]; [10]]; [[10]]].
 Proof. exact refuted_dup_reeval. Qed.
 
+(* the de-duplication memory of an Exists node: local to the evaluation (the code as it is) => any number of evaluations of
+   the node in ANY interleaving each yield one result per key; kept on the node and cleared at start => refuted *)
+Theorem C03_exists_local_isolated : forall (ks : list Z) (ops : list eop) (h : nat) (hd : lhandle),
+  nth_error (lrun ks ops []) h = Some hd ->
+  is_prefix (l_tr hd) (dedup ks) /\ (l_st hd = EDone -> l_tr hd = dedup ks).
+Proof. exact exists_local_isolated. Qed.
+
+Theorem C03_refuted_shared_exists_memory :
+  s_hs (srun [1; 2] lockstep) = [(SLive [], [1; 2]); (SDone, [1])] /\ dedup [1; 2] = [1; 2] /\
+  map l_tr (lrun [1; 2] lockstep []) = [[1; 2]; [1; 2]].
+Proof. exact refuted_shared_exists_memory. Qed.
+
 (* non-vacuity: a sequential schedule with an abandoned handle and a fresh one; a two-variable query evaluated twice *)
 Example C03_nonvacuous :
   (NoDup [1; 2; 3] /\
@@ -104,7 +130,15 @@ Proof.
   - exact reeval_nonvacuous.
 Qed.
 
+(* non-vacuity for the empty domain: four handles one after the other, one of them abandoned *)
+Example C03_nonvacuous_empty :
+  exists S', seq_run [Create; Next 0; Next 0; Create; Next 1; Create; Abandon 2; Create; Next 3]%nat (init []) = Some S' /\
+             hs S' = [(HDone, []); (HDone, []); (HClosed, []); (HDone, [])].
+Proof. exact empty_domain_two_handles. Qed.
+
 Print Assumptions C03_cache_sequential.
+Print Assumptions C03_cache_sequential_empty.
+Print Assumptions C03_cache_warm_any_schedule.
 Print Assumptions C03_seq_run_is_run.
 Print Assumptions C03_refuted_interleave.
 Print Assumptions C03_refuted_dup.
@@ -117,3 +151,5 @@ Print Assumptions C03_cold_is_good.
 Print Assumptions C03_iter_full_is_exhaust.
 Print Assumptions C03_refuted_rule_reeval.
 Print Assumptions C03_refuted_dup_reeval.
+Print Assumptions C03_exists_local_isolated.
+Print Assumptions C03_refuted_shared_exists_memory.
